@@ -9,11 +9,30 @@ import P2sh.Spec.Format
                          write (plus one for the newline of the `ln` variants);
 * `missing_argument`   — `{}` with no argument left is an error in the model and in the specification.
 
-The general refinement `format_refines` (every grammar-derived string) is an open obligation;
-it is covered by the differential run (all strings of ≤ 2 items + random longer ones).
+* `parse_renderText`   — the printer `renderText : List Item → String` (every specifier written
+                         canonically as `{[index][:[fill<|>][width][radix]]}`, braces doubled) is read
+                         back by the reference parser, for every item list of the grammar (`wfItems`:
+                         a fill comes with `<`/`>` and is none of `< > { }`; a radix is one of `b o x X`);
+* `format_refines`     — on every such string and every argument list, wherever the reference
+                         renderer fixes the outcome the model of `format_buf` has it: the pieces it
+                         writes concatenate to the reference text, and a specifier whose argument is
+                         missing is an error.  (`format_refines_render`: the same with the reference
+                         renderer applied to the string.)  Restrictions, both explicit:
+                         `wfItemsR` = `wfItems` + widths ≤ 65536 (the model does not pad further:
+                         `⟦huge-width⟧`; the reference is silent only above 100000), and
+                         `args.length < 2^64` (an index ≥ 2^64 does not parse as `usize`).
+                         No restriction on the fill: a radix letter, a digit or `:` before `<`/`>` is
+                         the fill in the code as in the grammar.
+
+Proof plan: `Steps` (a run of `formatLoop` between two configurations, any sufficient fuel), one
+`step_*` lemma per character class, `steps_field` (a whole specifier up to its closing brace ends in
+`specState f`), `formatObj_eq` (`format_obj` = width ∘ body ∘ pad), `formatObj_field` (pad/radix/
+decimal agree with the reference), `refine_core` (induction over the items with the invariant
+"outside a specifier, accumulators empty, `idxArg = next + 1`, pieces so far concatenate to `acc`").
 -/
 namespace P2sh.Props.C12
 open P2sh P2sh.Builtins
+open P2sh.Spec.Format (Item Field Just parse parseField digitsVal isRadix render renderItems)
 
 def plain (cs : List Char) : Prop := ∀ c ∈ cs, c ≠ '{' ∧ c ≠ '}'
 
@@ -91,5 +110,1375 @@ theorem print_len (args : List Val) (nl : Bool) (text : String) (n : Nat)
 theorem missing_argument (s : String) :
     formatBuf [.str "{}"] = .error "positional arguments exceeded the count" := by
   rfl
+
+
+/-! ## the printer and `parse ∘ renderText = id` -/
+deriving instance DecidableEq for Spec.Format.Field
+deriving instance DecidableEq for Spec.Format.Item
+
+def optChar : Option Char → List Char
+  | some c => [c]
+  | none => []
+
+def optNum : Option Nat → List Char
+  | some n => Nat.toDigits 10 n
+  | none => []
+
+def justChars : Just → List Char
+  | .dflt => []
+  | .left => ['<']
+  | .right => ['>']
+
+/-- what follows the colon -/
+def specChars (f : Field) : List Char :=
+  optChar f.fill ++ (justChars f.just ++ (optNum f.width ++ optChar f.radix))
+
+def fieldChars (f : Field) : List Char :=
+  optNum f.index ++ (if (specChars f).isEmpty then [] else ':' :: specChars f)
+
+def itemChars : Item → List Char
+  | .lit c => if c = '{' then ['{', '{'] else if c = '}' then ['}', '}'] else [c]
+  | .field f => '{' :: (fieldChars f ++ ['}'])
+
+def renderChars : List Item → List Char
+  | [] => []
+  | it :: rest => itemChars it ++ renderChars rest
+
+def renderText (items : List Item) : String := String.ofList (renderChars items)
+
+def wfField (f : Field) : Bool :=
+  (match f.fill with
+   | some c => f.just != .dflt && c != '<' && c != '>' && c != '{' && c != '}'
+   | none => true)
+  && (match f.radix with
+   | some r => isRadix r
+   | none => true)
+
+def wfItem : Item → Bool
+  | .lit _ => true
+  | .field f => wfField f
+
+def wfItems (items : List Item) : Bool := items.all wfItem
+
+theorem span_loop {α} (p : α → Bool) (ds rest acc : List α) (hd : ∀ c ∈ ds, p c = true)
+    (hr : ∀ c ∈ rest.head?, p c = false) :
+    List.span.loop p (ds ++ rest) acc = (acc.reverse ++ ds, rest) := by
+  induction ds generalizing acc with
+  | nil =>
+    cases rest with
+    | nil => simp [List.span.loop]
+    | cons r rs =>
+      have := hr r (by simp)
+      simp [List.span.loop, this]
+  | cons d ds ih =>
+    have h1 := hd d (by simp)
+    have := ih (d :: acc) (fun c hc => hd c (by simp [hc]))
+    simp [List.span.loop, h1, this]
+
+theorem span_append {α} (p : α → Bool) (ds rest : List α) (hd : ∀ c ∈ ds, p c = true)
+    (hr : ∀ c ∈ rest.head?, p c = false) : (ds ++ rest).span p = (ds, rest) := by
+  simp [List.span, span_loop p ds rest [] hd hr]
+
+theorem digitsVal_eq (cs : List Char) : digitsVal cs = Nat.ofDigitChars 10 cs 0 := by
+  unfold digitsVal Nat.ofDigitChars
+  congr 1
+  funext a c
+  simp [Nat.mul_comm]
+
+theorem digitsVal_toDigits (n : Nat) : digitsVal (Nat.toDigits 10 n) = n := by
+  rw [digitsVal_eq, Nat.ofDigitChars_ten_toDigits]
+
+theorem toDigits_isDigit (n : Nat) : ∀ c ∈ Nat.toDigits 10 n, c.isDigit = true :=
+  fun _ hc => Nat.isDigit_of_mem_toDigits (by decide) (by decide) hc
+
+theorem optNum_isDigit (o : Option Nat) : ∀ c ∈ optNum o, c.isDigit = true := by
+  cases o with
+  | none => simp [optNum]
+  | some n => exact toDigits_isDigit n
+
+theorem optNum_val (o : Option Nat) :
+    (if (optNum o).isEmpty then none else some (digitsVal (optNum o))) = o := by
+  cases o with
+  | none => simp [optNum]
+  | some n =>
+    have : (Nat.toDigits 10 n).isEmpty = false := by
+      have := @Nat.toDigits_ne_nil n 10
+      cases h : Nat.toDigits 10 n <;> simp_all
+    simp [optNum, this, digitsVal_toDigits]
+
+def fillJust (spec : List Char) : Option Char × Just × List Char :=
+    let (fill, just, rest2) :=
+      match spec with
+      | c :: '<' :: r => if c != '<' && c != '>' then (some c, Just.left, r) else (none, Just.dflt, spec)
+      | _ => (none, Just.dflt, spec)
+    let (fill, just, rest2) :=
+      if just != .dflt then (fill, just, rest2) else
+      match spec with
+      | c :: '>' :: r => if c != '<' && c != '>' then (some c, Just.right, r) else (none, Just.dflt, spec)
+      | _ => (none, Just.dflt, spec)
+    let (just, rest2) :=
+      if just != .dflt then (just, rest2) else
+      match rest2 with
+      | '<' :: r => (Just.left, r)
+      | '>' :: r => (Just.right, r)
+      | _ => (Just.dflt, rest2)
+    (fill, just, rest2)
+
+def widthRadix (index : Option Nat) (fill : Option Char) (just : Just) (rest2 : List Char) : Option Field :=
+    let (w, rest3) := rest2.span Char.isDigit
+    let width := if w.isEmpty then none else some (digitsVal w)
+    match rest3 with
+    | [] => some { index := index, fill := fill, just := just, width := width }
+    | [r] => if isRadix r then some { index := index, fill := fill, just := just, width := width, radix := some r } else none
+    | _ => none
+
+theorem parseField_eq (cs : List Char) : parseField cs =
+  (let (idx, rest) := cs.span Char.isDigit
+  let index := if idx.isEmpty then none else some (digitsVal idx)
+  match rest with
+  | [] => some { index := index }
+  | [r] => if isRadix r then some { index := index, radix := some r } else none
+  | ':' :: spec =>
+    let (fill, just, rest2) := fillJust spec
+    widthRadix index fill just rest2
+  | _ => none) := by
+  rfl
+
+/-- the tail of a specifier (width digits and radix letter) has no `<`/`>` -/
+def noAngle (xs : List Char) : Prop := ∀ c ∈ xs, c ≠ '<' ∧ c ≠ '>'
+
+theorem fillJust_spec (fill : Option Char) (just : Just) (xs : List Char) (hx : noAngle xs)
+    (hf : ∀ c, fill = some c → just ≠ .dflt ∧ c ≠ '<' ∧ c ≠ '>') :
+    fillJust (optChar fill ++ (justChars just ++ xs)) = (fill, just, xs) := by
+  cases fill with
+  | some c =>
+    obtain ⟨hj, h1, h2⟩ := hf c rfl
+    cases just with
+    | dflt => exact absurd rfl hj
+    | left => simp [optChar, justChars, fillJust, h1, h2]
+    | right => simp [optChar, justChars, fillJust, h1, h2]
+  | none =>
+    cases just with
+    | dflt =>
+      simp only [optChar, justChars, List.nil_append]
+      match xs, hx with
+      | [], _ => simp [fillJust]
+      | [a], hx =>
+        have := hx a (by simp)
+        simp [fillJust, this]
+      | a :: b :: r, hx =>
+        have ha := hx a (by simp)
+        have hb := hx b (by simp)
+        simp [fillJust, ha, hb]
+    | left =>
+      simp only [optChar, justChars, List.nil_append]
+      match xs, hx with
+      | [], _ => simp [fillJust]
+      | a :: r, hx =>
+        have ha := hx a (by simp)
+        simp [fillJust, ha]
+    | right =>
+      simp only [optChar, justChars, List.nil_append]
+      match xs, hx with
+      | [], _ => simp [fillJust]
+      | a :: r, hx =>
+        have ha := hx a (by simp)
+        simp [fillJust, ha]
+
+
+theorem isRadix_cases {r : Char} (h : isRadix r = true) : r = 'b' ∨ r = 'o' ∨ r = 'x' ∨ r = 'X' := by
+  simpa [isRadix, or_assoc] using h
+
+theorem isRadix_notDigit {r : Char} (h : isRadix r = true) : r.isDigit = false := by
+  rcases isRadix_cases h with rfl | rfl | rfl | rfl <;> decide
+
+theorem widthRadix_spec (index : Option Nat) (fill : Option Char) (just : Just) (width : Option Nat)
+    (radix : Option Char) (hr : ∀ r, radix = some r → isRadix r = true) :
+    widthRadix index fill just (optNum width ++ optChar radix)
+      = some { index := index, fill := fill, just := just, width := width, radix := radix } := by
+  unfold widthRadix
+  rw [span_append _ _ _ (optNum_isDigit width)]
+  · simp only [optNum_val]
+    cases radix with
+    | none => simp [optChar]
+    | some r => simp [optChar, hr r rfl]
+  · cases radix with
+    | none => simp [optChar]
+    | some r => simpa [optChar] using isRadix_notDigit (hr r rfl)
+
+theorem digit_noAngle {c : Char} (h : c.isDigit = true) : c ≠ '<' ∧ c ≠ '>' := by
+  constructor <;> (rintro rfl; simp at h)
+
+theorem tail_noAngle (width : Option Nat) (radix : Option Char)
+    (hr : ∀ r, radix = some r → isRadix r = true) : noAngle (optNum width ++ optChar radix) := by
+  intro c hc
+  rcases List.mem_append.mp hc with h | h
+  · exact digit_noAngle (optNum_isDigit width c h)
+  · cases radix with
+    | none => simp [optChar] at h
+    | some r =>
+      have : c = r := by simpa [optChar] using h
+      subst this
+      rcases isRadix_cases (hr c rfl) with rfl | rfl | rfl | rfl <;> decide
+
+theorem wfField_fill {f : Field} (h : wfField f = true) :
+    ∀ c, f.fill = some c → f.just ≠ .dflt ∧ c ≠ '<' ∧ c ≠ '>' ∧ c ≠ '{' ∧ c ≠ '}' := by
+  intro c hc
+  simp [wfField, hc] at h
+  obtain ⟨⟨⟨⟨⟨h1, h2⟩, h3⟩, h4⟩, h5⟩, _⟩ := h
+  exact ⟨h1, h2, h3, h4, h5⟩
+
+theorem wfField_radix {f : Field} (h : wfField f = true) : ∀ r, f.radix = some r → isRadix r = true := by
+  intro r hr
+  simp [wfField, hr] at h
+  exact h.2
+
+theorem parseField_fieldChars (f : Field) (h : wfField f = true) : parseField (fieldChars f) = some f := by
+  have hfill := wfField_fill h
+  have hrad := wfField_radix h
+  rw [parseField_eq, fieldChars]
+  by_cases he : (specChars f).isEmpty = true
+  · simp only [he, if_true]
+    rw [span_append _ _ _ (optNum_isDigit _) (by simp)]
+    simp only [optNum_val]
+    obtain ⟨index, fill, just, width, radix⟩ := f
+    cases fill <;> cases just <;> cases width <;> cases radix <;>
+      simp_all [specChars, optChar, justChars, optNum, Nat.toDigits_ne_nil]
+  · have he' : (specChars f).isEmpty = false := by simpa using he
+    simp only [he', Bool.false_eq_true, if_false]
+    rw [span_append _ _ _ (optNum_isDigit _) (by simp)]
+    simp only [optNum_val]
+    obtain ⟨a, as, hs⟩ : ∃ a as, specChars f = a :: as := by
+      cases hs : specChars f with
+      | nil => simp [hs] at he'
+      | cons a as => exact ⟨a, as, rfl⟩
+    rw [hs]
+    simp only []
+    rw [← hs, specChars,
+      fillJust_spec _ _ _ (tail_noAngle _ _ hrad) (fun c hc => ⟨(hfill c hc).1, (hfill c hc).2.1, (hfill c hc).2.2.1⟩)]
+    simp only []
+    rw [widthRadix_spec _ _ _ _ _ hrad]
+
+
+theorem parse_field_step (fuel : Nat) (inside rest : List Char)
+    (hin : ∀ c ∈ inside, c ≠ '{' ∧ c ≠ '}') :
+    parse (fuel+1) ('{' :: (inside ++ '}' :: rest)) =
+      match parseField inside with
+      | some f => (parse fuel rest).map (.field f :: ·)
+      | none => none := by
+  have hspan : (inside ++ '}' :: rest).span (· != '}') = (inside, '}' :: rest) :=
+    span_append _ _ _ (fun c hc => by simpa using (hin c hc).2) (by simp)
+  have hcont : inside.contains '{' = false := by
+    cases h : inside.contains '{' with
+    | false => rfl
+    | true => 
+      rw [List.contains_iff_mem] at h
+      exact absurd rfl (hin _ h).1
+  have hhead : ∀ r, inside ++ '}' :: rest ≠ '{' :: r := by
+    intro r heq
+    cases inside with
+    | nil => simp at heq
+    | cons a as =>
+      simp at heq
+      exact (hin a (by simp)).1 heq.1
+  generalize hX : inside ++ '}' :: rest = X at *
+  conv => lhs; unfold parse
+  split <;> simp_all
+  · rfl
+  · rename_i h1 _ _ h2; exact absurd h2.1.symm h1
+
+theorem digit_noBrace {c : Char} (h : c.isDigit = true) : c ≠ '{' ∧ c ≠ '}' := by
+  constructor <;> (rintro rfl; simp at h)
+
+theorem fieldChars_noBrace (f : Field) (h : wfField f = true) :
+    ∀ c ∈ fieldChars f, c ≠ '{' ∧ c ≠ '}' := by
+  have hfill := wfField_fill h
+  have hrad := wfField_radix h
+  have hspec : ∀ c ∈ specChars f, c ≠ '{' ∧ c ≠ '}' := by
+    intro c hc
+    simp only [specChars, List.mem_append] at hc
+    rcases hc with hc | hc | hc | hc
+    · cases hf : f.fill with
+      | none => simp [hf, optChar] at hc
+      | some d =>
+        have : c = d := by simpa [hf, optChar] using hc
+        subst this
+        exact ⟨(hfill c hf).2.2.2.1, (hfill c hf).2.2.2.2⟩
+    · cases hj : f.just <;> simp [hj, justChars] at hc <;> subst hc <;> decide
+    · exact digit_noBrace (optNum_isDigit _ c hc)
+    · cases hr : f.radix with
+      | none => simp [hr, optChar] at hc
+      | some r =>
+        have : c = r := by simpa [hr, optChar] using hc
+        subst this
+        rcases isRadix_cases (hrad c hr) with rfl | rfl | rfl | rfl <;> decide
+  intro c hc
+  simp only [fieldChars, List.mem_append] at hc
+  rcases hc with hc | hc
+  · exact digit_noBrace (optNum_isDigit _ c hc)
+  · split at hc
+    · simp at hc
+    · rcases List.mem_cons.mp hc with rfl | hc
+      · decide
+      · exact hspec c hc
+
+theorem parse_lit_step (fuel : Nat) (c : Char) (rest : List Char) (h1 : c ≠ '{') (h2 : c ≠ '}') :
+    parse (fuel+1) (c :: rest) = (parse fuel rest).map (.lit c :: ·) := by
+  conv => lhs; unfold parse
+  split <;> simp_all
+
+theorem parse_renderChars : ∀ (items : List Item) (fuel : Nat), wfItems items = true →
+    (renderChars items).length < fuel → parse fuel (renderChars items) = some items := by
+  intro items
+  induction items with
+  | nil =>
+    intro fuel _ hf
+    cases fuel with
+    | zero => simp at hf
+    | succ n => rfl
+  | cons it rest ih =>
+    intro fuel hwf hf
+    simp only [wfItems, List.all_cons, Bool.and_eq_true] at hwf
+    cases fuel with
+    | zero => simp at hf
+    | succ n =>
+      cases it with
+      | lit c =>
+        simp only [renderChars, itemChars] at hf ⊢
+        by_cases h1 : c = '{'
+        · subst h1
+          simp only [if_true, List.cons_append, List.nil_append, List.length_cons] at hf ⊢
+          rw [parse, ih n hwf.2 (by omega)]
+          rfl
+        · by_cases h2 : c = '}'
+          · subst h2
+            rw [if_neg (by decide)] at hf ⊢
+            simp only [if_true] at hf ⊢
+            simp only [List.cons_append, List.nil_append, List.length_cons] at hf ⊢
+            rw [parse, ih n hwf.2 (by omega)]
+            rfl
+          · simp only [h1, h2, if_false, List.cons_append, List.nil_append, List.length_cons] at hf ⊢
+            rw [parse_lit_step _ _ _ h1 h2, ih n hwf.2 (by omega)]
+            rfl
+      | field f =>
+        have hw : wfField f = true := hwf.1
+        simp only [renderChars, itemChars, List.cons_append, List.append_assoc, List.nil_append,
+          List.length_cons, List.length_append] at hf ⊢
+        rw [parse_field_step _ _ _ (fieldChars_noBrace f hw), parseField_fieldChars f hw]
+        simp only []
+        rw [ih n hwf.2 (by omega)]
+        rfl
+
+/-- **the printer is read back by the reference parser** -/
+theorem parse_renderText (items : List Item) (h : wfItems items = true) :
+    parse ((renderText items).length + 1) (renderText items).toList = some items := by
+  simp only [renderText, String.length_ofList, String.toList_ofList]
+  exact parse_renderChars items _ h (by omega)
+
+theorem render_renderText (items : List Item) (args : List Val) (h : wfItems items = true) :
+    render (renderText items) args = renderItems items args 0 "" := by
+  simp only [render, parse_renderText items h]
+
+/-! ## the state machine, one character at a time -/
+
+/-- what the closing brace of a specifier computes: the piece and the next positional index -/
+def closePiece (args : List Val) (st : FState) : Except String (String × Nat) :=
+  if st.idx.isEmpty then
+    if st.idxArg ≥ args.length then .error "positional arguments exceeded the count"
+    else match formatObj st.padding st.just st.width st.nf (args.getD st.idxArg .null) with
+      | .ok p => .ok (p, st.idxArg + 1)
+      | .error e => .error e
+  else
+    match parseUsize st.idx with
+    | none => .error "invalid digit found in string"
+    | some i =>
+      if i + 1 ≥ args.length then .error "positional argument index exceeded the count"
+      else match formatObj st.padding st.just st.width st.nf (args.getD (i + 1) .null) with
+        | .ok p => .ok (p, st.idxArg)
+        | .error e => .error e
+
+theorem step_close (args : List Val) (fuel : Nat) (rest : List Char) (st : FState) (h : st.inSpec = true) :
+    formatLoop args (fuel+1) ('}' :: rest) st =
+      match closePiece args st with
+      | .ok (p, i) => formatLoop args fuel rest { out := p :: st.out, idxArg := i }
+      | .error e => .error e := by
+  rw [formatLoop.eq_def]
+  simp only [h, closePiece]
+  simp
+  by_cases h1 : st.idx = ""
+  · rw [if_pos h1, if_pos h1]
+    by_cases h2 : args.length ≤ st.idxArg
+    · rw [if_pos h2, if_pos h2]; rfl
+    · rw [if_neg h2, if_neg h2]
+      cases formatObj st.padding st.just st.width st.nf (args[st.idxArg]?.getD Val.null) <;> rfl
+  · rw [if_neg h1, if_neg h1]
+    cases parseUsize st.idx with
+    | none => rfl
+    | some i =>
+      simp only []
+      by_cases h2 : args.length ≤ i + 1
+      · rw [if_pos h2, if_pos h2]; rfl
+      · rw [if_neg h2, if_neg h2]
+        cases formatObj st.padding st.just st.width st.nf (args[i + 1]?.getD Val.null) <;> rfl
+
+theorem step_lit (args : List Val) (fuel : Nat) (c : Char) (rest : List Char) (st : FState)
+    (h1 : c ≠ '{') (h2 : c ≠ '}') (h : st.inSpec = false) :
+    formatLoop args (fuel+1) (c :: rest) st =
+      formatLoop args fuel rest { st with out := String.singleton c :: st.out } := by
+  rw [formatLoop.eq_def]
+  simp only [h, beq_iff_eq, h1, h2, if_false, Bool.false_eq_true]
+
+theorem step_lbrace2 (args : List Val) (fuel : Nat) (rest : List Char) (st : FState) :
+    formatLoop args (fuel+1) ('{' :: '{' :: rest) st =
+      formatLoop args fuel rest { st with out := "{" :: st.out } := by
+  rw [formatLoop.eq_def]
+  simp
+
+theorem step_rbrace2 (args : List Val) (fuel : Nat) (rest : List Char) (st : FState)
+    (h : st.inSpec = false) :
+    formatLoop args (fuel+1) ('}' :: '}' :: rest) st =
+      formatLoop args fuel rest { st with out := "}" :: st.out } := by
+  rw [formatLoop.eq_def]
+  simp [h]
+
+theorem step_open (args : List Val) (fuel : Nat) (rest : List Char) (st : FState)
+    (h : rest.headD (Char.ofNat 0) ≠ '{') :
+    formatLoop args (fuel+1) ('{' :: rest) st = formatLoop args fuel rest { st with inSpec := true } := by
+  rw [formatLoop.eq_def]
+  simp only [beq_self_eq_true, if_true, beq_iff_eq, h, if_false]
+
+theorem step_idx (args : List Val) (fuel : Nat) (c : Char) (rest : List Char) (st : FState)
+    (hd : c.isDigit = true) (h1 : st.inSpec = true) (h2 : st.inSpecFormat = false) :
+    formatLoop args (fuel+1) (c :: rest) st =
+      formatLoop args fuel rest { st with idx := st.idx.push c, nf := .none } := by
+  have hb : c ≠ 'b' := by rintro rfl; simp at hd
+  have ho : c ≠ 'o' := by rintro rfl; simp at hd
+  have hx : c ≠ 'x' := by rintro rfl; simp at hd
+  have hX : c ≠ 'X' := by rintro rfl; simp at hd
+  have h3 : c ≠ '{' := by rintro rfl; simp at hd
+  have h4 : c ≠ '}' := by rintro rfl; simp at hd
+  have h5 : c ≠ ':' := by rintro rfl; simp at hd
+  rw [formatLoop.eq_def]
+  simp only [h1, h2, beq_iff_eq, h3, h4, h5, if_false, if_true, Bool.false_and, Bool.false_eq_true]
+  all_goals assumption
+
+theorem step_colon (args : List Val) (fuel : Nat) (rest : List Char) (st : FState)
+    (h1 : st.inSpec = true) (h2 : st.inSpecFormat = false) :
+    formatLoop args (fuel+1) (':' :: rest) st =
+      formatLoop args fuel rest { st with inSpecFormat := true } := by
+  rw [formatLoop.eq_def]
+  simp [h1, h2]
+
+theorem step_fill (args : List Val) (fuel : Nat) (c j : Char) (rest : List Char) (st : FState)
+    (h1 : st.inSpec = true) (h2 : st.inSpecFormat = true) (h3 : st.width = "")
+    (hj : j = '<' ∨ j = '>') (c1 : c ≠ '{') (c2 : c ≠ '}') (c3 : c ≠ '<') (c4 : c ≠ '>') :
+    formatLoop args (fuel+1) (c :: j :: rest) st =
+      formatLoop args fuel (j :: rest) { st with width := String.singleton c } := by
+  rw [formatLoop.eq_def]
+  rcases hj with rfl | rfl <;> simp [h1, h2, h3, c1, c2, c3, c4]
+
+theorem step_just (args : List Val) (fuel : Nat) (j : Char) (rest : List Char) (st : FState)
+    (h1 : st.inSpec = true) (h2 : st.inSpecFormat = true) (hj : j = '<' ∨ j = '>') :
+    formatLoop args (fuel+1) (j :: rest) st =
+      formatLoop args fuel rest { st with padding := st.width, width := "",
+                                          just := if j = '<' then .left else .right } := by
+  rw [formatLoop.eq_def]
+  rcases hj with rfl | rfl <;> simp [h1, h2]
+
+
+theorem step_wdigit (args : List Val) (fuel : Nat) (c : Char) (rest : List Char) (st : FState)
+    (hd : c.isDigit = true) (h1 : st.inSpec = true) (h2 : st.inSpecFormat = true)
+    (hn1 : rest.headD (Char.ofNat 0) ≠ '<') (hn2 : rest.headD (Char.ofNat 0) ≠ '>') :
+    formatLoop args (fuel+1) (c :: rest) st =
+      formatLoop args fuel rest { st with width := st.width.push c, nf := .none } := by
+  have hb : c ≠ 'b' := by rintro rfl; simp at hd
+  have ho : c ≠ 'o' := by rintro rfl; simp at hd
+  have hx : c ≠ 'x' := by rintro rfl; simp at hd
+  have hX : c ≠ 'X' := by rintro rfl; simp at hd
+  have h3 : c ≠ '{' := by rintro rfl; simp at hd
+  have h4 : c ≠ '}' := by rintro rfl; simp at hd
+  have h5 : c ≠ ':' := by rintro rfl; simp at hd
+  have h6 : c ≠ '<' := by rintro rfl; simp at hd
+  have h7 : c ≠ '>' := by rintro rfl; simp at hd
+  have e1 : (rest.headD (Char.ofNat 0) == '<') = false := by simpa using hn1
+  have e2 : (rest.headD (Char.ofNat 0) == '>') = false := by simpa using hn2
+  have e3 : (c == '<') = false := by simpa using h6
+  have e4 : (c == '>') = false := by simpa using h7
+  have e5 : (c == '{') = false := by simpa using h3
+  have e6 : (c == '}') = false := by simpa using h4
+  have e7 : (c == ':') = false := by simpa using h5
+  rw [formatLoop.eq_def]
+  simp only [h1, h2, e1, e2, e3, e4, e5, e6, e7, if_false, if_true, Bool.false_and,
+    Bool.false_eq_true, Bool.or_self, Bool.and_false]
+
+def nfOf : Option Char → NumFmt
+  | some 'b' => .bin
+  | some 'o' => .oct
+  | some 'x' => .hex
+  | some 'X' => .hexUp
+  | _ => .none
+
+theorem step_radix (args : List Val) (fuel : Nat) (r : Char) (rest : List Char) (st : FState)
+    (hr : isRadix r = true) (h1 : st.inSpec = true)
+    (hn1 : rest.headD (Char.ofNat 0) ≠ '<') (hn2 : rest.headD (Char.ofNat 0) ≠ '>') :
+    formatLoop args (fuel+1) (r :: rest) st =
+      formatLoop args fuel rest { st with nf := nfOf (some r) } := by
+  have e1 : rest.head?.getD (Char.ofNat 0) ≠ '<' := by simpa using hn1
+  have e2 : rest.head?.getD (Char.ofNat 0) ≠ '>' := by simpa using hn2
+  rw [formatLoop.eq_def]
+  have : r = 'b' ∨ r = 'o' ∨ r = 'x' ∨ r = 'X' := by simpa [isRadix, or_assoc] using hr
+  rcases this with rfl | rfl | rfl | rfl <;>
+    simp [h1, e1, e2, nfOf]
+
+
+/-! ## runs of the state machine -/
+
+/-- `cs` from `st` runs to `cs'` from `st'` (whatever fuel is left, as long as it suffices) -/
+def Steps (args : List Val) (cs : List Char) (st : FState) (cs' : List Char) (st' : FState) : Prop :=
+  ∀ fuel, cs.length < fuel →
+    ∃ fuel', cs'.length < fuel' ∧ formatLoop args fuel cs st = formatLoop args fuel' cs' st'
+
+theorem Steps.refl (args : List Val) (cs : List Char) (st : FState) : Steps args cs st cs st :=
+  fun fuel h => ⟨fuel, h, rfl⟩
+
+theorem Steps.trans {args : List Val} {c1 c2 c3 : List Char} {s1 s2 s3 : FState}
+    (h1 : Steps args c1 s1 c2 s2) (h2 : Steps args c2 s2 c3 s3) : Steps args c1 s1 c3 s3 := by
+  intro fuel hf
+  obtain ⟨f2, hf2, e1⟩ := h1 fuel hf
+  obtain ⟨f3, hf3, e2⟩ := h2 f2 hf2
+  exact ⟨f3, hf3, e1.trans e2⟩
+
+theorem Steps.one {args : List Val} {c : Char} {rest : List Char} {st st' : FState}
+    (h : ∀ fuel, formatLoop args (fuel+1) (c :: rest) st = formatLoop args fuel rest st') :
+    Steps args (c :: rest) st rest st' := by
+  intro fuel hf
+  cases fuel with
+  | zero => simp at hf
+  | succ n => exact ⟨n, by simpa using hf, h n⟩
+
+theorem Steps.two {args : List Val} {c d : Char} {rest : List Char} {st st' : FState}
+    (h : ∀ fuel, formatLoop args (fuel+1) (c :: d :: rest) st = formatLoop args fuel rest st') :
+    Steps args (c :: d :: rest) st rest st' := by
+  intro fuel hf
+  cases fuel with
+  | zero => simp at hf
+  | succ n => exact ⟨n, by simp at hf; omega, h n⟩
+
+/-- index digits -/
+theorem steps_idx (args : List Val) (ds rest : List Char) (hd : ∀ c ∈ ds, c.isDigit = true) :
+    ∀ (st : FState), st.inSpec = true → st.inSpecFormat = false → st.nf = .none →
+      Steps args (ds ++ rest) st rest { st with idx := st.idx ++ String.ofList ds } := by
+  induction ds with
+  | nil =>
+    intro st _ _ _
+    simpa using Steps.refl args rest st
+  | cons d ds ih =>
+    intro st h1 h2 h3
+    obtain ⟨out, idxArg, inSpec, inSpecFormat, just, width, padding, idx, nf⟩ := st
+    simp only at h1 h2 h3
+    subst h1 h2 h3
+    have s1 := Steps.one (fun fuel => step_idx args fuel d (ds ++ rest)
+      ⟨out, idxArg, true, false, just, width, padding, idx, .none⟩ (hd d (by simp)) rfl rfl)
+    have s2 := ih (fun c hc => hd c (by simp [hc]))
+      ⟨out, idxArg, true, false, just, width, padding, idx.push d, .none⟩ rfl rfl rfl
+    have e : idx.push d ++ String.ofList ds = idx ++ String.ofList (d :: ds) := by
+      rw [String.ofList_cons, String.push_eq_append, String.append_assoc]
+    have := s1.trans s2
+    simp only [e] at this
+    exact this
+
+
+/-- width digits -/
+theorem steps_width (args : List Val) (ds rest : List Char) (hd : ∀ c ∈ ds, c.isDigit = true)
+    (hn1 : rest.headD (Char.ofNat 0) ≠ '<') (hn2 : rest.headD (Char.ofNat 0) ≠ '>') :
+    ∀ (st : FState), st.inSpec = true → st.inSpecFormat = true → st.nf = .none →
+      Steps args (ds ++ rest) st rest { st with width := st.width ++ String.ofList ds } := by
+  induction ds with
+  | nil =>
+    intro st _ _ _
+    simpa using Steps.refl args rest st
+  | cons d ds ih =>
+    intro st h1 h2 h3
+    obtain ⟨out, idxArg, inSpec, inSpecFormat, just, width, padding, idx, nf⟩ := st
+    simp only at h1 h2 h3
+    subst h1 h2 h3
+    have hnext : (ds ++ rest).headD (Char.ofNat 0) ≠ '<' ∧ (ds ++ rest).headD (Char.ofNat 0) ≠ '>' := by
+      cases ds with
+      | nil => exact ⟨hn1, hn2⟩
+      | cons e es => exact digit_noAngle (hd e (by simp))
+    have s1 := Steps.one (fun fuel => step_wdigit args fuel d (ds ++ rest)
+      ⟨out, idxArg, true, true, just, width, padding, idx, .none⟩ (hd d (by simp)) rfl rfl hnext.1 hnext.2)
+    have s2 := ih (fun c hc => hd c (by simp [hc]))
+      ⟨out, idxArg, true, true, just, width.push d, padding, idx, .none⟩ rfl rfl rfl
+    have e : width.push d ++ String.ofList ds = width ++ String.ofList (d :: ds) := by
+      rw [String.ofList_cons, String.push_eq_append, String.append_assoc]
+    have := s1.trans s2
+    simp only [e] at this
+    exact this
+
+def justOf : Just → Justify
+  | .dflt => .dflt
+  | .left => .left
+  | .right => .right
+
+/-- optional fill and justification -/
+theorem steps_filljust (args : List Val) (fill : Option Char) (just : Just) (tail : List Char)
+    (hf : ∀ c, fill = some c → just ≠ .dflt ∧ c ≠ '<' ∧ c ≠ '>' ∧ c ≠ '{' ∧ c ≠ '}')
+    (st : FState) (h1 : st.inSpec = true) (h2 : st.inSpecFormat = true) (h3 : st.width = "")
+    (h4 : st.padding = "") (h5 : st.just = .dflt) :
+    Steps args (optChar fill ++ (justChars just ++ tail)) st tail
+      { st with padding := String.ofList (optChar fill), just := justOf just } := by
+  obtain ⟨out, idxArg, inSpec, inSpecFormat, j0, width, padding, idx, nf⟩ := st
+  simp only at h1 h2 h3 h4 h5
+  subst h1 h2 h3 h4 h5
+  cases fill with
+  | none =>
+    cases just with
+    | dflt => exact Steps.refl _ _ _
+    | left =>
+      exact Steps.one (fun fuel => step_just args fuel '<' tail _ rfl rfl (Or.inl rfl))
+    | right =>
+      exact Steps.one (fun fuel => step_just args fuel '>' tail _ rfl rfl (Or.inr rfl))
+  | some c =>
+    obtain ⟨hj, c3, c4, c1, c2⟩ := hf c rfl
+    cases just with
+    | dflt => exact absurd rfl hj
+    | left =>
+      have s1 := Steps.one (fun fuel => step_fill args fuel c '<' tail
+        ⟨out, idxArg, true, true, .dflt, "", "", idx, nf⟩ rfl rfl rfl (Or.inl rfl) c1 c2 c3 c4)
+      have s2 := Steps.one (fun fuel => step_just args fuel '<' tail
+        ⟨out, idxArg, true, true, .dflt, String.singleton c, "", idx, nf⟩ rfl rfl (Or.inl rfl))
+      exact s1.trans s2
+    | right =>
+      have s1 := Steps.one (fun fuel => step_fill args fuel c '>' tail
+        ⟨out, idxArg, true, true, .dflt, "", "", idx, nf⟩ rfl rfl rfl (Or.inr rfl) c1 c2 c3 c4)
+      have s2 := Steps.one (fun fuel => step_just args fuel '>' tail
+        ⟨out, idxArg, true, true, .dflt, String.singleton c, "", idx, nf⟩ rfl rfl (Or.inr rfl))
+      exact s1.trans s2
+
+/-- optional radix letter -/
+theorem steps_radix (args : List Val) (radix : Option Char) (tail : List Char)
+    (hr : ∀ r, radix = some r → isRadix r = true)
+    (hn1 : tail.headD (Char.ofNat 0) ≠ '<') (hn2 : tail.headD (Char.ofNat 0) ≠ '>')
+    (st : FState) (h1 : st.inSpec = true) (h3 : st.nf = .none) :
+    Steps args (optChar radix ++ tail) st tail { st with nf := nfOf radix } := by
+  cases radix with
+  | none =>
+    obtain ⟨out, idxArg, inSpec, inSpecFormat, j0, width, padding, idx, nf⟩ := st
+    simp only at h3
+    subst h3
+    exact Steps.refl _ _ _
+  | some r =>
+    exact Steps.one (fun fuel => step_radix args fuel r tail st (hr r rfl) h1 hn1 hn2)
+
+
+/-- the state just before the closing brace of the specifier `f` -/
+def specState (o : List String) (k : Nat) (f : Field) : FState :=
+  { out := o, idxArg := k, inSpec := true, inSpecFormat := !(specChars f).isEmpty,
+    just := justOf f.just, width := String.ofList (optNum f.width),
+    padding := String.ofList (optChar f.fill), idx := String.ofList (optNum f.index),
+    nf := nfOf f.radix }
+
+theorem head_fieldChars (f : Field) (h : wfField f = true) (rest : List Char) :
+    (fieldChars f ++ '}' :: rest).headD (Char.ofNat 0) ≠ '{' := by
+  cases hfc : fieldChars f with
+  | nil => simp
+  | cons a as =>
+    have := (fieldChars_noBrace f h a (by simp [hfc])).1
+    simpa using this
+
+theorem head_radix_close (radix : Option Char) (hr : ∀ r, radix = some r → isRadix r = true)
+    (rest : List Char) :
+    (optChar radix ++ '}' :: rest).headD (Char.ofNat 0) ≠ '<' ∧
+    (optChar radix ++ '}' :: rest).headD (Char.ofNat 0) ≠ '>' := by
+  cases radix with
+  | none => simp [optChar]
+  | some r =>
+    rcases isRadix_cases (hr r rfl) with rfl | rfl | rfl | rfl <;> simp [optChar]
+
+/-- **a whole specifier, up to its closing brace** -/
+theorem steps_field (args : List Val) (f : Field) (h : wfField f = true) (rest : List Char)
+    (o : List String) (k : Nat) :
+    Steps args ('{' :: (fieldChars f ++ '}' :: rest)) { out := o, idxArg := k }
+      ('}' :: rest) (specState o k f) := by
+  have hfill := wfField_fill h
+  have hrad := wfField_radix h
+  have s1 : Steps args ('{' :: (fieldChars f ++ '}' :: rest)) { out := o, idxArg := k }
+      (fieldChars f ++ '}' :: rest) { out := o, idxArg := k, inSpec := true } :=
+    Steps.one (fun fuel => step_open args fuel _ _ (head_fieldChars f h rest))
+  refine s1.trans ?_
+  unfold fieldChars
+  rw [List.append_assoc]
+  have s2 := steps_idx args (optNum f.index)
+    ((if (specChars f).isEmpty then [] else ':' :: specChars f) ++ '}' :: rest) (optNum_isDigit _)
+    { out := o, idxArg := k, inSpec := true } rfl rfl rfl
+  refine s2.trans ?_
+  simp only [String.empty_append]
+  by_cases he : (specChars f).isEmpty = true
+  · simp only [he, if_true, List.nil_append]
+    obtain ⟨index, fill, just, width, radix⟩ := f
+    have : fill = none ∧ just = .dflt ∧ width = none ∧ radix = none := by
+      cases fill <;> cases just <;> cases width <;> cases radix <;>
+        simp_all [specChars, optChar, justChars, optNum, Nat.toDigits_ne_nil]
+    obtain ⟨rfl, rfl, rfl, rfl⟩ := this
+    exact Steps.refl _ _ _
+  · have he' : (specChars f).isEmpty = false := by simpa using he
+    simp only [he', Bool.false_eq_true, if_false, List.cons_append]
+    have s3 := Steps.one (fun fuel => step_colon args fuel (specChars f ++ '}' :: rest)
+      { out := o, idxArg := k, inSpec := true, idx := String.ofList (optNum f.index) } rfl rfl)
+    refine s3.trans ?_
+    unfold specChars
+    simp only [List.append_assoc]
+    have s4 := steps_filljust args f.fill f.just (optNum f.width ++ (optChar f.radix ++ '}' :: rest)) hfill
+      { out := o, idxArg := k, inSpec := true, inSpecFormat := true, idx := String.ofList (optNum f.index) }
+      rfl rfl rfl rfl rfl
+    refine s4.trans ?_
+    have hh := head_radix_close f.radix hrad rest
+    have s5 := steps_width args (optNum f.width) (optChar f.radix ++ '}' :: rest) (optNum_isDigit _) hh.1 hh.2
+      { out := o, idxArg := k, inSpec := true, inSpecFormat := true, idx := String.ofList (optNum f.index),
+        padding := String.ofList (optChar f.fill), just := justOf f.just } rfl rfl rfl
+    refine s5.trans ?_
+    have s6 := steps_radix args f.radix ('}' :: rest) hrad (by simp) (by simp)
+      { out := o, idxArg := k, inSpec := true, inSpecFormat := true, idx := String.ofList (optNum f.index),
+        padding := String.ofList (optChar f.fill), just := justOf f.just,
+        width := "" ++ String.ofList (optNum f.width) } rfl rfl
+    simp only [String.empty_append] at s6 ⊢
+    simpa [specState, he'] using s6
+
+
+/-! ## `format_obj` in three stages -/
+
+def widthOf (widthStr : String) : Except String Nat :=
+  if widthStr.isEmpty then .ok 0 else
+    match parseUsize widthStr with
+    | some w => .ok w
+    | none => .error "Failed to parse width"
+
+def bodyOf (widthStr : String) (nf : NumFmt) (obj : Val) : Except String String :=
+  match nf with
+  | .bin => (match obj with | .int n => .ok (showRadix 2 false n.toUInt64.toNat) | _ => .error "Can't format non-number as binary")
+  | .oct => (match obj with | .int n => .ok (showRadix 8 false n.toUInt64.toNat) | _ => .error "Can't format non-number as octal")
+  | .hex => (match obj with | .int n => .ok (showRadix 16 false n.toUInt64.toNat) | _ => .error "Can't format non-number as hex")
+  | .hexUp => (match obj with | .int n => .ok (showRadix 16 true n.toUInt64.toNat) | _ => .error "Can't format non-number as hex")
+  | .none => (match obj with
+      | .str t => .ok t
+      | o => match display o with
+        | some s => if s.contains '⟦' && !widthStr.isEmpty then .error "⟦unmodelled-display⟧" else .ok s
+        | none => .error "⟦unmodelled-display⟧")
+
+def padOut (padding : String) (just : Justify) (width : Nat) (obj : Val) (formatted : String) : Except String String :=
+  let padding := if padding.isEmpty then " " else padding
+  let widthPad := width - formatted.utf8ByteSize
+  if widthPad > 65536 then .error "⟦huge-width⟧" else
+  let padded := repeatS padding widthPad
+  let isInt := match obj with | .int _ => true | _ => false
+  let j := match just with
+    | .dflt => if isInt then Justify.right else Justify.left
+    | j => j
+  .ok (match j with
+    | .left => formatted ++ padded
+    | _ => padded ++ formatted)
+
+theorem formatObj_eq (padding : String) (just : Justify) (widthStr : String) (nf : NumFmt) (obj : Val) :
+    formatObj padding just widthStr nf obj =
+      match widthOf widthStr with
+      | .error e => .error e
+      | .ok width => match bodyOf widthStr nf obj with
+        | .error e => .error e
+        | .ok formatted => padOut padding just width obj formatted := by
+  unfold formatObj widthOf bodyOf
+  by_cases hw : widthStr.isEmpty = true
+  · simp only [hw, if_true]
+    cases nf <;> cases obj <;> first | rfl | (simp only [bind, Except.bind, pure, Except.pure]; cases display _ with | none => rfl | some s => (simp only []; generalize (s.contains '⟦' && _) = bb; cases bb <;> rfl))
+  · simp only [hw]
+    cases parseUsize widthStr with
+    | none => rfl
+    | some w =>
+      cases nf <;> cases obj <;> first | rfl | (simp only [bind, Except.bind, pure, Except.pure]; cases display _ with | none => rfl | some s => (simp only []; generalize (s.contains '⟦' && _) = bb; cases bb <;> rfl))
+
+/-! ## numbers read back by the model -/
+
+theorem foldlM_digits (ds : List Char) (hd : ∀ c ∈ ds, c.isDigit = true) (acc : Nat) :
+    ds.foldlM (fun acc c => if c.isDigit then some (acc * 10 + (c.toNat - 48)) else none) acc
+      = some (ds.foldl (fun a c => a * 10 + (c.toNat - 48)) acc) := by
+  induction ds generalizing acc with
+  | nil => rfl
+  | cons d ds ih =>
+    have h1 := hd d (by simp)
+    simp only [List.foldlM_cons, List.foldl_cons, h1, if_true]
+    exact ih (fun c hc => hd c (by simp [hc])) _
+
+theorem parseDigits_toDigits (n : Nat) : parseDigits (Nat.toDigits 10 n) = some n := by
+  have hne := @Nat.toDigits_ne_nil n 10
+  have hd := toDigits_isDigit n
+  have hv := digitsVal_toDigits n
+  unfold digitsVal at hv
+  cases h : Nat.toDigits 10 n with
+  | nil => exact absurd h hne
+  | cons d ds =>
+    rw [h] at hd hv
+    unfold parseDigits
+    simp only []
+    rw [foldlM_digits _ hd, hv]
+
+theorem parseUsize_toDigits (n : Nat) :
+    parseUsize (String.ofList (Nat.toDigits 10 n)) = if n < 18446744073709551616 then some n else none := by
+  have hd := toDigits_isDigit n
+  have hp := parseDigits_toDigits n
+  unfold parseUsize
+  simp only [String.toList_ofList]
+  cases h : Nat.toDigits 10 n with
+  | nil => exact absurd h Nat.toDigits_ne_nil
+  | cons d ds =>
+    rw [h] at hd hp
+    have : d ≠ '+' := by
+      have := hd d (by simp)
+      rintro rfl
+      simp at this
+    split
+    · rename_i heq
+      split at heq
+      · rename_i h2; cases h2; exact absurd rfl this
+      · rw [hp] at heq; cases heq; rfl
+    · rename_i heq
+      split at heq
+      · rename_i h2; cases h2; exact absurd rfl this
+      · rw [hp] at heq; cases heq
+
+theorem ofList_toDigits_isEmpty (n : Nat) : (String.ofList (Nat.toDigits 10 n)).isEmpty = false := by
+  cases h : (String.ofList (Nat.toDigits 10 n)).isEmpty with
+  | false => rfl
+  | true =>
+    rw [String.isEmpty_iff] at h
+    have := congrArg String.toList h
+    simp only [String.toList_ofList] at this
+    exact absurd this Nat.toDigits_ne_nil
+
+
+/-! ## decimal and radix text: model = reference -/
+
+theorem digitChar_eq (d : Nat) (h : d < 10) : Builtins.digitChar d = Nat.digitChar d := by
+  have : ∀ d : Fin 10, Builtins.digitChar d.val = Nat.digitChar d.val := by decide
+  exact this ⟨d, h⟩
+
+theorem natDigits_eq : ∀ (fuel n : Nat), n < fuel → natDigits fuel n = Nat.toDigits 10 n := by
+  intro fuel
+  induction fuel with
+  | zero => intro n h; omega
+  | succ f ih =>
+    intro n h
+    rw [natDigits, Nat.toDigits_eq_if (by decide)]
+    by_cases hn : n < 10
+    · simp only [hn, if_true, digitChar_eq n hn]
+    · simp only [hn, if_false]
+      rw [ih (n / 10) (by omega), digitChar_eq (n % 10) (by omega)]
+
+theorem showNat_eq (n : Nat) : showNat n = Nat.repr n := by
+  rw [showNat, natDigits_eq _ _ (by omega), Nat.repr]
+
+theorem showInt_eq (i : Int) : showInt i = toString i := by
+  unfold showInt
+  cases i with
+  | ofNat m =>
+    have : ¬ (Int.ofNat m < 0) := by simp
+    rw [if_neg this, showNat_eq]
+    rfl
+  | negSucc m =>
+    have : Int.negSucc m < 0 := Int.negSucc_lt_zero m
+    rw [if_pos this, showNat_eq]
+    rfl
+
+theorem radixGo_eq (r : Char) : ∀ (fuel v : Nat),
+    Spec.Format.radixText.go (if r == 'b' then 2 else if r == 'o' then 8 else 16) (r == 'X') fuel v =
+      radixDigits (if r == 'b' then 2 else if r == 'o' then 8 else 16) (r == 'X') fuel v := by
+  intro fuel
+  induction fuel with
+  | zero => intro v; rfl
+  | succ f ih =>
+    intro v
+    simp only [Spec.Format.radixText.go, radixDigits, ih]
+
+
+/-! ## ASCII text, repetition -/
+
+theorem utf8ByteSize_ofList_ascii (l : List Char) (h : l.all (·.toNat < 128) = true) :
+    (String.ofList l).utf8ByteSize = l.length := by
+  induction l with
+  | nil => rfl
+  | cons c l ih =>
+    simp only [List.all_cons, Bool.and_eq_true, decide_eq_true_eq] at h
+    have hc : c.utf8Size = 1 := by
+      rw [Char.utf8Size_eq_one_iff, UInt32.le_iff_toNat_le]
+      have : c.val.toNat = c.toNat := rfl
+      simp only [this]
+      have h1 := h.1
+      show c.toNat ≤ 127
+      omega
+    rw [String.ofList_cons, String.utf8ByteSize_append, String.utf8ByteSize_singleton, hc, ih h.2]
+    simp only [List.length_cons]; omega
+
+theorem utf8ByteSize_ascii (s : String) (h : s.toList.all (·.toNat < 128) = true) :
+    s.utf8ByteSize = s.length := by
+  have := utf8ByteSize_ofList_ascii s.toList h
+  rwa [String.ofList_toList, String.length_toList] at this
+
+theorem repeatS_singleton (c : Char) (n : Nat) :
+    repeatS (String.singleton c) n = String.ofList (List.replicate n c) := by
+  induction n with
+  | zero => rfl
+  | succ n ih => rw [repeatS, ih, List.replicate_succ, String.ofList_cons]
+
+theorem ascii_no_marker (s : String) (h : s.toList.all (·.toNat < 128) = true) :
+    s.contains '⟦' = false := by
+  rw [String.contains_char_eq]
+  simp only [decide_eq_false_iff_not]
+  intro hm
+  have := List.all_eq_true.mp h _ hm
+  simp at this
+
+
+
+/-! ## one specifier: reference renderer and model -/
+
+def isIntV : Val → Bool
+  | .int _ => true
+  | _ => false
+
+/-- the text the reference renderer fixes for one specifier and its argument (`none` = unconstrained) -/
+def fieldOut (f : Field) (v : Val) : Option String :=
+  match f.radix, v with
+  | some r, .int n => Spec.Format.pad f true (Spec.Format.radixText r n)
+  | some _, _ => none
+  | none, v => (Spec.Format.valueText v).bind (Spec.Format.pad f (isIntV v))
+
+theorem renderItems_field (f : Field) (rest : List Item) (args : List Val) (next : Nat) (acc : String) :
+    renderItems (.field f :: rest) args next acc =
+      match args[f.index.getD next]? with
+      | none => .error
+      | some v =>
+        match fieldOut f v with
+        | some t => renderItems rest args (if f.index.isSome then next else next + 1) (acc ++ t)
+        | none => .any := by
+  obtain ⟨index, fill, just, width, radix⟩ := f
+  have key : ∀ (i next' : Nat),
+      (match args[i]? with
+      | none => Spec.Format.Out.error
+      | some v =>
+        let isInt := match v with | .int _ => true | _ => false
+        let body : Option String := match radix with
+          | some r => (match v with | .int n => some (Spec.Format.radixText r n) | _ => none)
+          | none => Spec.Format.valueText v
+        match radix, v with
+        | some _, .int _ | none, _ =>
+          (match body with
+           | none => .any
+           | some s => match Spec.Format.pad ⟨index, fill, just, width, radix⟩ isInt s with
+             | some t => renderItems rest args next' (acc ++ t)
+             | none => .any)
+        | some _, _ => .any) =
+      match args[i]? with
+      | none => .error
+      | some v =>
+        match fieldOut ⟨index, fill, just, width, radix⟩ v with
+        | some t => renderItems rest args next' (acc ++ t)
+        | none => .any := by
+    intro i next'
+    cases args[i]? with
+    | none => rfl
+    | some v =>
+      cases radix <;> cases v <;> simp only [fieldOut, isIntV, Spec.Format.valueText, Option.bind] <;>
+        (try rfl) <;> (split <;> rfl)
+  cases index with
+  | none => exact key next (next + 1)
+  | some n => exact key n next
+
+
+/-- the restriction of the refinement theorem beyond the grammar: widths the model pads (≤ 65536) -/
+def wfWidth (f : Field) : Bool :=
+  match f.width with
+  | some w => decide (w ≤ 65536)
+  | none => true
+
+theorem widthOf_field (width : Option Nat) (h : ∀ w, width = some w → w ≤ 65536) :
+    widthOf (String.ofList (optNum width)) = .ok (width.getD 0) := by
+  cases width with
+  | none => rfl
+  | some w =>
+    have := h w rfl
+    simp only [widthOf, optNum, ofList_toDigits_isEmpty, Bool.false_eq_true, if_false,
+      parseUsize_toDigits, Option.getD]
+    rw [if_pos (by omega)]
+
+theorem radixText_eq (r : Char) (n : Int64) :
+    Spec.Format.radixText r n =
+      showRadix (if r == 'b' then 2 else if r == 'o' then 8 else 16) (r == 'X') n.toUInt64.toNat := by
+  simp only [Spec.Format.radixText, showRadix, radixGo_eq]
+
+theorem bodyOf_radix (W : String) (r : Char) (hr : isRadix r = true) (n : Int64) :
+    bodyOf W (nfOf (some r)) (.int n) = .ok (Spec.Format.radixText r n) := by
+  rw [radixText_eq]
+  rcases isRadix_cases hr with rfl | rfl | rfl | rfl <;> rfl
+
+theorem bodyOf_value (W : String) (v : Val) (s : String) (hv : Spec.Format.valueText v = some s)
+    (hc : W.isEmpty = true ∨ s.toList.all (·.toNat < 128) = true) :
+    bodyOf W .none v = .ok s := by
+  have hcond : (s.contains '⟦' && !W.isEmpty) = false := by
+    rcases hc with h | h
+    · simp [h]
+    · simp [ascii_no_marker s h]
+  cases v <;> simp only [Spec.Format.valueText, Option.some.injEq, reduceCtorEq] at hv
+  case null =>
+    subst hv
+    simp only [bodyOf, display]
+    rw [hcond]; rfl
+  case str =>
+    subst hv; rfl
+  case int =>
+    subst hv
+    simp only [bodyOf, display, showI64, showInt_eq, Spec.Builtins.decimal] at hcond ⊢
+    rw [hcond]; rfl
+  case bool =>
+    subst hv
+    simp only [bodyOf, display]
+    rw [hcond]; rfl
+
+
+/-- padding: where the reference renderer fixes the padded text, the model's `padOut` produces it -/
+theorem padOut_spec (f : Field) (hw : wfWidth f = true) (v : Val) (s t : String)
+    (hp : Spec.Format.pad f (isIntV v) s = some t) :
+    padOut (String.ofList (optChar f.fill)) (justOf f.just) (f.width.getD 0) v s = .ok t ∧
+      (f.width = none ∨ s.toList.all (·.toNat < 128) = true) := by
+  obtain ⟨index, fill, just, width, radix⟩ := f
+  cases width with
+  | none =>
+    simp only [Spec.Format.pad, Option.some.injEq] at hp
+    subst hp
+    refine ⟨?_, Or.inl rfl⟩
+    simp only [padOut, Option.getD, Nat.zero_sub, repeatS, String.append_empty, String.empty_append]
+    rw [if_neg (by omega)]
+    congr 1
+    split <;> rfl
+  | some w =>
+    have hw' : w ≤ 65536 := by simpa [wfWidth] using hw
+    simp only [Spec.Format.pad] at hp
+    split at hp
+    · cases hp
+    · rename_i h1
+      split at hp
+      · cases hp
+      · rename_i h2
+        simp only [Bool.or_eq_true, Bool.not_eq_true', decide_eq_true_eq, not_or, Bool.not_eq_false] at h1
+        obtain ⟨ha, hf⟩ := h1
+        refine ⟨?_, Or.inr ha⟩
+        simp only [Option.some.injEq] at hp
+        subst hp
+        have hsz : s.utf8ByteSize = s.length := utf8ByteSize_ascii s ha
+        have hpadding : (if (String.ofList (optChar fill)).isEmpty = true then " " else String.ofList (optChar fill))
+            = String.singleton (fill.getD ' ') := by
+          cases fill with
+          | none => rfl
+          | some c =>
+            have : (String.ofList [c]).isEmpty = false := by
+              cases h : (String.ofList [c]).isEmpty with
+              | false => rfl
+              | true =>
+                rw [String.isEmpty_iff] at h
+                have := congrArg String.toList h
+                simp at this
+            simp only [optChar, this, Bool.false_eq_true, if_false, Option.getD]
+            rfl
+        simp only [padOut, Option.getD, hpadding, hsz, repeatS_singleton]
+        rw [if_neg (by omega)]
+        congr 1
+        cases just <;> simp only [justOf]
+        · cases v <;> rfl
+        · rfl
+        · rfl
+
+
+theorem wfWidth_le {f : Field} (h : wfWidth f = true) : ∀ w, f.width = some w → w ≤ 65536 := by
+  intro w hw
+  simpa [wfWidth, hw] using h
+
+/-- **one specifier, one argument**: where the reference renderer fixes the text, `format_obj`
+produces it -/
+theorem formatObj_field (f : Field) (h : wfField f = true) (hw : wfWidth f = true) (v : Val) (t : String)
+    (ht : fieldOut f v = some t) :
+    formatObj (String.ofList (optChar f.fill)) (justOf f.just) (String.ofList (optNum f.width))
+      (nfOf f.radix) v = .ok t := by
+  have hrad := wfField_radix h
+  rw [formatObj_eq, widthOf_field f.width (wfWidth_le hw)]
+  simp only []
+  cases hr : f.radix with
+  | some r =>
+    cases v <;> simp only [fieldOut, hr, reduceCtorEq] at ht
+    rename_i n
+    rw [bodyOf_radix _ r (hrad r hr) n]
+    simp only []
+    exact (padOut_spec f hw (.int n) _ t ht).1
+  | none =>
+    simp only [fieldOut, hr] at ht
+    cases hv : Spec.Format.valueText v with
+    | none => simp [hv] at ht
+    | some s =>
+      simp only [hv, Option.bind] at ht
+      obtain ⟨h1, h2⟩ := padOut_spec f hw v s t ht
+      have hc : (String.ofList (optNum f.width)).isEmpty = true ∨ s.toList.all (·.toNat < 128) = true := by
+        rcases h2 with h2 | h2
+        · left; rw [h2]; rfl
+        · right; exact h2
+      simp only [nfOf]
+      rw [bodyOf_value _ v s hv hc]
+      exact h1
+
+/-- what the closing brace does with the accumulated specifier `f` -/
+theorem closePiece_field (a0 : Val) (args : List Val) (hargs : args.length < 18446744073709551616)
+    (f : Field) (o : List String) (next : Nat) :
+    match args[f.index.getD next]? with
+    | none => ∃ e, closePiece (a0 :: args) (specState o (next + 1) f) = .error e
+    | some v =>
+      closePiece (a0 :: args) (specState o (next + 1) f) =
+        match formatObj (String.ofList (optChar f.fill)) (justOf f.just) (String.ofList (optNum f.width))
+            (nfOf f.radix) v with
+        | .ok p => .ok (p, (if f.index.isSome then next else next + 1) + 1)
+        | .error e => .error e := by
+  have hget : ∀ k v, args[k]? = some v → (a0 :: args).getD (k + 1) Val.null = v := by
+    intro k v hk
+    simp [List.getD, hk]
+  have hnone : ∀ k, args[k]? = none → args.length ≤ k := by
+    intro k hk; simpa using hk
+  have hsome : ∀ k v, args[k]? = some v → k < args.length := by
+    intro k v hk
+    rcases Nat.lt_or_ge k args.length with h | h
+    · exact h
+    · have : args[k]? = none := by simpa using h
+      rw [this] at hk; cases hk
+  unfold closePiece specState
+  simp only [List.length_cons]
+  cases hi : f.index with
+  | none =>
+    have e1 : (String.ofList (optNum (none : Option Nat))).isEmpty = true := rfl
+    simp only [e1, if_true, Option.getD, Option.isSome]
+    cases hv : args[next]? with
+    | none =>
+      have := hnone next hv
+      simp only []
+      rw [if_pos (by omega)]
+      exact ⟨_, rfl⟩
+    | some v =>
+      have := hsome next v hv
+      simp only []
+      rw [if_neg (by omega), hget next v hv]
+      rfl
+  | some n =>
+    simp only [optNum, ofList_toDigits_isEmpty, Bool.false_eq_true, if_false, parseUsize_toDigits,
+      Option.getD, Option.isSome]
+    cases hv : args[n]? with
+    | none =>
+      have := hnone n hv
+      simp only []
+      by_cases hn : n < 18446744073709551616
+      · rw [if_pos hn]
+        simp only []
+        rw [if_pos (by omega)]
+        exact ⟨_, rfl⟩
+      · rw [if_neg hn]
+        exact ⟨_, rfl⟩
+    | some v =>
+      have := hsome n v hv
+      simp only []
+      rw [if_pos (by omega)]
+      simp only []
+      rw [if_neg (by omega), hget n v hv]
+      rfl
+
+
+
+/-! ## the refinement, by induction over the items -/
+
+/-- the item lists of the refinement theorem: the grammar (`wfItem`) and widths the model pads -/
+def wfItemR : Item → Bool
+  | .lit _ => true
+  | .field f => wfField f && wfWidth f
+
+def wfItemsR (items : List Item) : Bool := items.all wfItemR
+
+theorem join_snoc (l : List String) (s : String) : String.join (l ++ [s]) = String.join l ++ s := by
+  simp [String.join, List.foldl_append]
+
+theorem join_cons_reverse (o : List String) (s : String) :
+    String.join (s :: o).reverse = String.join o.reverse ++ s := by
+  rw [List.reverse_cons, join_snoc]
+
+theorem formatLoop_nil (args : List Val) (fuel : Nat) (st : FState) :
+    formatLoop args fuel [] st = .ok st.out.reverse := by
+  cases fuel <;> rfl
+
+theorem refine_core (a0 : Val) (args : List Val) (hargs : args.length < 18446744073709551616) :
+    ∀ (items : List Item) (next : Nat) (acc : String) (o : List String),
+      wfItemsR items = true → String.join o.reverse = acc →
+      ∀ fuel, (renderChars items).length < fuel →
+        match renderItems items args next acc with
+        | .text t => ∃ pieces, formatLoop (a0 :: args) fuel (renderChars items)
+              { out := o, idxArg := next + 1 } = .ok pieces ∧ String.join pieces = t
+        | .error => ∃ e, formatLoop (a0 :: args) fuel (renderChars items)
+              { out := o, idxArg := next + 1 } = .error e
+        | .any => True := by
+  intro items
+  induction items with
+  | nil =>
+    intro next acc o _ hj fuel _
+    simp only [renderItems, renderChars, formatLoop_nil]
+    exact ⟨_, rfl, hj⟩
+  | cons it rest ih =>
+    intro next acc o hwf hj fuel hf
+    simp only [wfItemsR, List.all_cons, Bool.and_eq_true] at hwf
+    obtain ⟨hw1, hw2⟩ := hwf
+    cases it with
+    | lit c =>
+      have hstep : ∃ s, Steps (a0 :: args) (renderChars (.lit c :: rest))
+          { out := o, idxArg := next + 1 } (renderChars rest) { out := s :: o, idxArg := next + 1 } ∧
+          String.join o.reverse ++ s = (String.join o.reverse).push c := by
+        simp only [renderChars, itemChars]
+        by_cases h1 : c = '{'
+        · subst h1
+          exact ⟨"{", Steps.two (fun fuel => step_lbrace2 _ fuel _ _), by rw [String.push_eq_append]; rfl⟩
+        · by_cases h2 : c = '}'
+          · subst h2
+            exact ⟨"}", Steps.two (fun fuel => step_rbrace2 _ fuel _ _ rfl), by rw [String.push_eq_append]; rfl⟩
+          · simp only [h1, h2, if_false]
+            exact ⟨String.singleton c, Steps.one (fun fuel => step_lit _ fuel c _ _ h1 h2 rfl),
+              by rw [String.push_eq_append]⟩
+      obtain ⟨s, hs, hjs⟩ := hstep
+      obtain ⟨fuel', hf', e⟩ := hs fuel hf
+      have := ih next (acc.push c) (s :: o) hw2 (by rw [join_cons_reverse, hj] at *; exact hjs) fuel' hf'
+      simp only [renderItems]
+      rw [e]
+      exact this
+    | field f =>
+      simp only [wfItemR, Bool.and_eq_true] at hw1
+      obtain ⟨hwf, hww⟩ := hw1
+      have hs := steps_field (a0 :: args) f hwf (renderChars rest) o (next + 1)
+      have hcs : renderChars (.field f :: rest) = '{' :: (fieldChars f ++ '}' :: renderChars rest) := by
+        simp [renderChars, itemChars]
+      rw [hcs] at hf ⊢
+      obtain ⟨fuel', hf', e⟩ := hs fuel hf
+      rw [e, renderItems_field]
+      cases fuel' with
+      | zero => simp at hf'
+      | succ n =>
+        rw [step_close _ n _ _ rfl]
+        have hcp := closePiece_field a0 args hargs f o next
+        cases hv : args[f.index.getD next]? with
+        | none =>
+          rw [hv] at hcp
+          obtain ⟨e', he'⟩ := hcp
+          simp only [he']
+          exact ⟨_, rfl⟩
+        | some v =>
+          rw [hv] at hcp
+          simp only [] at hcp ⊢
+          cases ht : fieldOut f v with
+          | none => trivial
+          | some t =>
+            rw [hcp, formatObj_field f hwf hww v t ht]
+            simp only []
+            exact ih _ (acc ++ t) (t :: o) hw2 (by rw [join_cons_reverse, hj]) n
+              (by simp at hf'; omega)
+
+
+
+/-! ## the theorems -/
+
+theorem wfItemsR_wfItems {items : List Item} (h : wfItemsR items = true) : wfItems items = true := by
+  simp only [wfItemsR, wfItems, List.all_eq_true] at h ⊢
+  intro it hit
+  have := h it hit
+  cases it with
+  | lit c => rfl
+  | field f =>
+    simp only [wfItemR, Bool.and_eq_true] at this
+    exact this.1
+
+/-- **format_refines** (items form): on the canonical text of a well-formed item list, wherever
+the reference renderer fixes the outcome the model of `format_buf` has it — the pieces written
+concatenate to the reference text, and a specifier without its argument is an error.  (Where the
+reference says `any` nothing is claimed.)  `args.length < 2^64` is the address-space bound: an
+index ≥ 2^64 does not parse as `usize` in the code. -/
+theorem format_refines (items : List Item) (args : List Val) (hwf : wfItemsR items = true)
+    (hargs : args.length < 18446744073709551616) :
+    (∀ t, renderItems items args 0 "" = .text t →
+      ∃ pieces, formatBuf (.str (renderText items) :: args) = .ok pieces ∧ String.join pieces = t) ∧
+    (renderItems items args 0 "" = .error →
+      ∃ e, formatBuf (.str (renderText items) :: args) = .error e) := by
+  have h := refine_core (.str (renderText items)) args hargs items 0 "" [] hwf rfl
+    ((renderText items).length + 1) (by simp [renderText])
+  have hb : formatBuf (.str (renderText items) :: args) =
+      formatLoop (.str (renderText items) :: args) ((renderText items).length + 1) (renderChars items) {} := by
+    simp [formatBuf, renderText]
+  rw [hb]
+  constructor
+  · intro t ht
+    rw [ht] at h
+    exact h
+  · intro he
+    rw [he] at h
+    exact h
+
+/-- **format_refines**, stated with the reference renderer applied to the format *string*
+(`parse_renderText` reads the items back) -/
+theorem format_refines_render (items : List Item) (args : List Val) (hwf : wfItemsR items = true)
+    (hargs : args.length < 18446744073709551616) :
+    match render (renderText items) args with
+    | .text t => ∃ pieces, formatBuf (.str (renderText items) :: args) = .ok pieces ∧ String.join pieces = t
+    | .error => ∃ e, formatBuf (.str (renderText items) :: args) = .error e
+    | .any => True := by
+  rw [render_renderText items args (wfItemsR_wfItems hwf)]
+  have h := format_refines items args hwf hargs
+  cases hr : renderItems items args 0 "" with
+  | text t => exact h.1 t hr
+  | error => exact h.2 hr
+  | any => trivial
+
+/-! ### non-vacuity -/
+
+def exItems : List Item :=
+  [.lit 'a', .lit '{', .field {}, .lit ' ',
+   .field { index := some 0, fill := some '*', just := .right, width := some 6, radix := some 'x' },
+   .lit '}', .field { width := some 4 },
+   .field { index := some 1, fill := some 'x', just := .left, width := some 3 },
+   .field { index := some 0, radix := some 'b' }]
+def exArgs : List Val := [.int 255, .str "hi"]
+
+example : wfItemsR exItems = true := by decide
+example : renderText exItems = "a{{{} {0:*>6x}}}{:4}{1:x<3}{0:b}" := by decide
+example : parse ("a{{{} {0:*>6x}}}{:4}{1:x<3}{0:b}".length + 1) "a{{{} {0:*>6x}}}{:4}{1:x<3}{0:b}".toList
+    = some exItems := by decide
+example : renderItems exItems exArgs 0 "" = .text "a{255 ****ff}hi  hix11111111" := by rfl
+/-- the model on this string, through the theorem -/
+example : ∃ pieces, formatBuf (.str "a{{{} {0:*>6x}}}{:4}{1:x<3}{0:b}" :: exArgs) = .ok pieces ∧
+    String.join pieces = "a{255 ****ff}hi  hix11111111" :=
+  (format_refines exItems exArgs (by decide) (by decide)).1 _ rfl
+/-- negative numbers: 64-bit two's complement in hexadecimal, sign kept in decimal, zero fill -/
+example : ∃ pieces, formatBuf [.str "{:X} {0:0>5}", .int (-1)] = .ok pieces ∧
+    String.join pieces = "FFFFFFFFFFFFFFFF 000-1" :=
+  (format_refines [.field { radix := some 'X' }, .lit ' ',
+      .field { index := some 0, fill := some '0', just := .right, width := some 5 }] [.int (-1)]
+    (by decide) (by decide)).1 _ rfl
+/-- a radix letter as fill (`{:x<4}`): the fill, not a radix -/
+example : ∃ pieces, formatBuf [.str "{:x<6}{:b>6}", .bool true, .null] = .ok pieces ∧
+    String.join pieces = "truexxbbnull" :=
+  (format_refines [.field { fill := some 'x', just := .left, width := some 6 },
+      .field { fill := some 'b', just := .right, width := some 6 }] [.bool true, .null]
+    (by decide) (by decide)).1 _ rfl
+/-- the error side: the third specifier has no argument -/
+example : ∃ e, formatBuf [.str "{}{}{:5}", .int 1, .int 2] = .error e :=
+  (format_refines [.field {}, .field {}, .field { width := some 5 }] [.int 1, .int 2]
+    (by decide) (by decide)).2 rfl
+example : ∃ e, formatBuf [.str "{2}", .int 1, .int 2] = .error e :=
+  (format_refines [.field { index := some 2 }] [.int 1, .int 2] (by decide) (by decide)).2 rfl
+/-- the `any` side exists: a radix for a string is not specified -/
+example : render "{:x}" [.str "s"] = .any := by rfl
+
 
 end P2sh.Props.C12
